@@ -43,6 +43,8 @@ pub fn batches(prop: &str, tier: &str) -> Vec<(&'static str, u64)> {
         "C01" | "C02" | "C04" | "C07" => vec![("fault-free", t(120_000)), ("faults", t(80_000))],
         "C03" => vec![("fault-free", t(160_000)), ("user-faults", t(40_000))],
         "C10" => vec![("fine", t(100_000))],
+        "C18" => vec![("permute", t(60_000)), ("reroute", t(40_000)), ("two-mocks", t(40_000)), ("relabel", t(40_000)), ("mixed", t(40_000))],
+        "C16" => vec![("fault-free", t(120_000)), ("faults", t(40_000)), ("executor", t(60_000))],
         "C15" => vec![("fault-free", t(120_000)), ("faults", t(40_000)), ("helper-race", t(40_000))],
         "C12" => vec![("fault-free", t(120_000)), ("faults", t(60_000))],
         "C09" => vec![("lifecycle", t(200_000))],
@@ -161,6 +163,8 @@ pub fn generate(prop: &str, base_seed: u64, batch: &str, run: u64) -> Scenario {
     match prop {
         "C01" | "C02" | "C03" | "C04" | "C07" => gen_coarse(prop, base_seed, batch, run, &mut rng),
         "C10" => crate::fine::gen_c10(base_seed, batch, run, &mut rng),
+        "C18" => crate::twin::gen_c18(base_seed, batch, run, &mut rng),
+        "C16" => crate::twin::gen_c16(base_seed, batch, run, &mut rng),
         "C15" => crate::twin::gen_c15(base_seed, batch, run, &mut rng),
         "C12" => crate::owning::gen_c12(base_seed, batch, run, &mut rng),
         "C09" => crate::lifeworld::gen_c09(base_seed, batch, run, &mut rng),
@@ -204,6 +208,9 @@ fn gen_coarse(prop: &str, base_seed: u64, batch: &str, run: u64, rng: &mut Rng) 
             ho.max_threads = 2;
             ho.max_calls = 8;
             ho.steer_bounds = false;
+            // the trait with a receiver-less provided fn in front of its unmockable methods
+            co.pool.extend([M::S0, M::S1, M::S2]);
+            ho.pool.extend([M::S0, M::S1, M::S2]);
         }
         _ => {}
     }
@@ -315,6 +322,8 @@ pub fn check_in_process(scn: &Scenario) -> Checked {
     match scn.prop.as_str() {
         "C01" | "C02" | "C03" | "C04" | "C07" => check_coarse(scn),
         "C10" => crate::fine::check_c10(scn),
+        "C18" => crate::twin::check_c18(scn),
+        "C16" => crate::twin::check_c16(scn),
         "C15" => crate::twin::check_c15(scn),
         "C12" => crate::owning::check_c12(scn),
         "C09" => crate::lifeworld::check_c09(scn),
